@@ -260,6 +260,21 @@ static void c05_fixed(int shard, int nshards, long long stride, bool full, const
               if (odt.compareTo(nx) != -1 || nx.compareTo(odt) != 1) { key = "c05:compareTo"; w = "OffsetDateTime::compareTo does not order by instant"; }
             }
           }
+          // ordering against a distant partner (the instant mirrored in the valid range: distances 0 .. 2^32 - 1 seconds),
+          // under another offset, both as OffsetDateTime and as ZonedDateTime of manual zones
+          int64_t p = vlo + (vhi - t), p2 = p + (int64_t) om2 * 60;
+          if (key.empty() && p >= lo && p <= hi && p2 >= -24855LL * 86400 && p2 < INT32_MAX) {
+            TimeOffset off2 = TimeOffset::forMinutes((int16_t) om2);
+            OffsetDateTime far = OffsetDateTime::forEpochSeconds((acetime_t) p, off2);
+            ZonedDateTime zfar = ZonedDateTime::forEpochSeconds((acetime_t) p, TimeZone::forTimeOffset(off2));
+            int want = t < p ? -1 : (t > p ? 1 : 0);
+            CNT.add("conv.distant_pairs");
+            if (std::llabs(t - p) > (int64_t) INT32_MAX) CNT.add("conv.distant_pairs_beyond_2^31");
+            if (far.isError() || zfar.isError()) { key = "c05:error-inside-range"; w = "date-time of a valid instant is an error"; }
+            else if (odt.compareTo(far) != want || far.compareTo(odt) != -want) { key = "c05:compareTo-distant"; w = "OffsetDateTime::compareTo does not order two distant instants"; }
+            else if (z.compareTo(zfar) != want || zfar.compareTo(z) != -want) { key = "c05:compareTo-distant"; w = "ZonedDateTime::compareTo does not order two distant instants"; }
+            if (!key.empty()) { J j; j.num("offset_min", om).num("epochSeconds", t).num("other_offset_min", om2).num("other_epochSeconds", p).num("want", want).num("got", odt.compareTo(far)); witness(key, w, j); key.clear(); }
+          }
         }
       }
       if (!key.empty()) { J j; j.num("offset_min", om).num("epochSeconds", t).num("got", odt.toEpochSeconds()); witness(key, w, j); }
